@@ -1,0 +1,58 @@
+//! Verification hooks (only compiled with `--cfg bumpalo_verif`).
+//!
+//! The arena's abstract state is observable through the public API plus the
+//! global allocator; the two things that are not are (1) stores into chunk
+//! footers -- in particular into the shared static empty chunk -- and (2) what
+//! the type of that static guarantees about its address. This module exposes
+//! exactly those. It adds no behaviour: with no sink installed every hook is a
+//! relaxed atomic load and a branch.
+
+use core::mem;
+use core::sync::atomic::{AtomicUsize, Ordering};
+
+/// Store of the bump pointer on the allocation fast path.
+pub const SITE_FAST: u8 = 1;
+/// Store of the bump pointer in `dealloc`.
+pub const SITE_DEALLOC: u8 = 2;
+/// Store of the bump pointer in `shrink`.
+pub const SITE_SHRINK: u8 = 3;
+/// Rewind after a failed initialiser, same chunk.
+pub const SITE_REWIND_SAME: u8 = 4;
+/// Rewind after a failed initialiser, new chunk.
+pub const SITE_REWIND_NEW: u8 = 5;
+/// Store of the bump pointer in `reset`.
+pub const SITE_RESET: u8 = 6;
+
+/// Signature of the sink: `(footer address, is the shared static empty chunk, site)`.
+pub type Sink = fn(usize, bool, u8);
+
+static SINK: AtomicUsize = AtomicUsize::new(0);
+
+/// Install (or, with `None`, remove) the process-wide sink for footer stores.
+pub fn set_sink(sink: Option<Sink>) {
+    SINK.store(sink.map(|f| f as usize).unwrap_or(0), Ordering::SeqCst);
+}
+
+/// Called immediately before every store into a chunk footer.
+#[inline]
+pub(crate) fn footer_store(footer: usize, site: u8) {
+    let s = SINK.load(Ordering::Relaxed);
+    if s != 0 {
+        let f: Sink = unsafe { mem::transmute::<usize, Sink>(s) };
+        f(footer, footer == sentinel().0, site);
+    }
+}
+
+/// Address of the shared static empty chunk and the alignment its *type*
+/// guarantees for it.
+pub fn sentinel() -> (usize, usize) {
+    (
+        crate::EMPTY_CHUNK.get().as_ptr() as usize,
+        mem::align_of::<crate::EmptyChunkFooter>(),
+    )
+}
+
+/// Size of the per-chunk footer.
+pub fn footer_size() -> usize {
+    crate::FOOTER_SIZE
+}
